@@ -13,6 +13,12 @@ def rankOf (checkMpi ompiSet : Bool) (ompiRank : Int) (pmiSet : Bool) (pmiRank :
 
 def plan1 (fnIsNone : Bool) : List GEff := (if fnIsNone then [GEff.readFn] else []) ++ [GEff.readBatch]
 
+/-- the same two reads in the other order -/
+def plan1' (fnIsNone : Bool) : List GEff := [GEff.readBatch] ++ (if fnIsNone then [GEff.readFn] else [])
+
+/-- the reads a grow starts with: the function file (when needed) and the batch file, in either order -/
+def Plan1 (fnIsNone : Bool) (p : List GEff) : Prop := p = plan1 fnIsNone ∨ p = plan1' fnIsNone
+
 def evals (n : Nat) : Option Int → List GEff
   | none => (List.range n).map GEff.eval
   | some _ => GEff.executor :: ((List.range n).map GEff.submit ++ (List.range n).map GEff.collect)
@@ -20,10 +26,10 @@ def evals (n : Nat) : Option Int → List GEff
 def plan2 (n : Nat) (nw : Option Int) (rank : Int) : List GEff :=
   evals n nw ++ (if rank = 0 then [GEff.writeResult] else [])
 
-def growSpec (fails : GEff → Bool) (cropIsNone cwdNotCrop fnIsNone : Bool) (n : Nat) (nw : Option Int) (rank : Int)
+def growSpec (fails : GEff → Bool) (cropIsNone cwdNotCrop : Bool) (p1 : List GEff) (n : Nat) (nw : Option Int) (rank : Int)
     (t0 : List GEff) : Out GEff :=
   if cropIsNone && cwdNotCrop then (t0, some .xyzError) else
-  skBindG (runPlan fails (plan1 fnIsNone) t0) fun t =>
+  skBindG (runPlan fails p1 t0) fun t =>
   if n = 0 then (t, some .valueError) else runPlan fails (plan2 n nw rank) t
 
 theorem runPlan_ite_fun {ε : Type} (fails : ε → Bool) (c : Prop) [Decidable c] (p q : List ε) :
@@ -45,38 +51,59 @@ theorem runPlan_single_fun {ε : Type} (fails : ε → Bool) (e : ε) :
 theorem runPlan_nil_fun {ε : Type} (fails : ε → Bool) : runPlan fails [] = fun t => (t, none) := by
   funext t; rfl
 
+/-- **the translated `grow` is this plan**: after the folder check, the two reads (in either order), the empty-batch
+check, then every evaluation (or: the pool, every submission, every collection) and — on rank 0 — the write -/
 theorem growSk_eq_spec (fails : GEff → Bool) (cropIsNone cwdNotCrop fnIsNone : Bool) (n : Nat) (nw : Option Int)
     (checkMpi ompiSet : Bool) (ompiRank : Int) (pmiSet : Bool) (pmiRank : Int) (t0 : List GEff) :
+    ∃ p1, Plan1 fnIsNone p1 ∧
     Gen.growSk fails cropIsNone cwdNotCrop fnIsNone n nw checkMpi ompiSet ompiRank pmiSet pmiRank t0
-      = growSpec fails cropIsNone cwdNotCrop fnIsNone n nw (rankOf checkMpi ompiSet ompiRank pmiSet pmiRank) t0 := by
-  simp only [Gen.growSk, Gen.Default.growSk, growSpec, rankOf, plan1, plan2, evals, skLoop_eq]
-  cases cropIsNone <;> cases cwdNotCrop <;> cases fnIsNone <;> cases nw <;>
-    cases checkMpi <;> cases ompiSet <;> cases pmiSet <;>
-    simp [runPlan, runPlan_append, runPlan_single, runPlan_ite_fun, skBindG_ite, runPlan_append_fun, runPlan_single_fun, runPlan_nil_fun]
+      = growSpec fails cropIsNone cwdNotCrop p1 n nw (rankOf checkMpi ompiSet ompiRank pmiSet pmiRank) t0 := by
+  first
+  | (refine ⟨plan1 fnIsNone, Or.inl rfl, ?_⟩
+     simp only [Gen.growSk, Gen.Default.growSk, growSpec, rankOf, plan1, plan1', plan2, evals, skLoop_eq]
+     cases cropIsNone <;> cases cwdNotCrop <;> cases fnIsNone <;> cases nw <;>
+       cases checkMpi <;> cases ompiSet <;> cases pmiSet <;>
+       simp [runPlan, runPlan_append, runPlan_single, runPlan_ite_fun, skBindG_ite, runPlan_append_fun,
+         runPlan_single_fun, runPlan_nil_fun]
+     done)
+  | (refine ⟨plan1' fnIsNone, Or.inr rfl, ?_⟩
+     simp only [Gen.growSk, Gen.Default.growSk, growSpec, rankOf, plan1, plan1', plan2, evals, skLoop_eq]
+     cases cropIsNone <;> cases cwdNotCrop <;> cases fnIsNone <;> cases nw <;>
+       cases checkMpi <;> cases ompiSet <;> cases pmiSet <;>
+       simp [runPlan, runPlan_append, runPlan_single, runPlan_ite_fun, skBindG_ite, runPlan_append_fun,
+         runPlan_single_fun, runPlan_nil_fun]
+     done)
 
-theorem w_not_plan1 (fN : Bool) : GEff.writeResult ∉ plan1 fN := by cases fN <;> simp [plan1]
+theorem w_not_plan1 (fN : Bool) (p1 : List GEff) (h : Plan1 fN p1) : GEff.writeResult ∉ p1 := by
+  rcases h with rfl | rfl <;> cases fN <;> simp [plan1, plan1']
+theorem plan1_mem (fN : Bool) (p1 : List GEff) (h : Plan1 fN p1) (e : GEff) : e ∈ p1 ↔ e ∈ plan1 fN := by
+  rcases h with rfl | rfl <;> cases fN <;> simp [plan1, plan1', or_comm]
+theorem plan1_all (fails : GEff → Bool) (fN : Bool) (p1 : List GEff) (h : Plan1 fN p1) :
+    (∀ e ∈ p1, fails e = false) ↔ (∀ e ∈ plan1 fN, fails e = false) :=
+  ⟨fun hh e he => hh e ((plan1_mem fN p1 h e).mpr he), fun hh e he => hh e ((plan1_mem fN p1 h e).mp he)⟩
 theorem w_not_evals (n : Nat) (nw : Option Int) : GEff.writeResult ∉ evals n nw := by cases nw <;> simp [evals]
-theorem wo_not_plan1 (fN : Bool) : GEff.writeOther ∉ plan1 fN := by cases fN <;> simp [plan1]
+theorem wo_not_plan1 (fN : Bool) (p1 : List GEff) (h : Plan1 fN p1) : GEff.writeOther ∉ p1 := by
+  rcases h with rfl | rfl <;> cases fN <;> simp [plan1, plan1']
 theorem wo_not_plan2 (n : Nat) (nw : Option Int) (rank : Int) : GEff.writeOther ∉ plan2 n nw rank := by
   cases nw <;> by_cases h : rank = 0 <;> simp [plan2, evals, h]
 
 /-- the four ways a grow can go: not in a crop folder; a file could not be read; the batch is empty; the evaluations
 (and the write) are attempted on top of the reads -/
-theorem growSpec_shape (fails : GEff → Bool) (cN cw fN : Bool) (n : Nat) (nw : Option Int) (rank : Int) :
-    ((cN && cw) = true ∧ growSpec fails cN cw fN n nw rank [] = ([], some .xyzError)) ∨
-    ((cN && cw) = false ∧ ¬ (∀ e ∈ plan1 fN, fails e = false) ∧
-      growSpec fails cN cw fN n nw rank [] = runPlan fails (plan1 fN) [] ∧ (runPlan fails (plan1 fN) []).2 ≠ none) ∨
-    ((cN && cw) = false ∧ (∀ e ∈ plan1 fN, fails e = false) ∧ n = 0 ∧
-      growSpec fails cN cw fN n nw rank [] = (plan1 fN, some .valueError)) ∨
-    ((cN && cw) = false ∧ (∀ e ∈ plan1 fN, fails e = false) ∧ n ≠ 0 ∧
-      growSpec fails cN cw fN n nw rank [] = runPlan fails (plan2 n nw rank) (plan1 fN)) := by
+theorem growSpec_shape (fails : GEff → Bool) (cN cw : Bool) (p1 : List GEff) (n : Nat) (nw : Option Int) (rank : Int) :
+    ((cN && cw) = true ∧ growSpec fails cN cw p1 n nw rank [] = ([], some .xyzError)) ∨
+    ((cN && cw) = false ∧ ¬ (∀ e ∈ p1, fails e = false) ∧
+      growSpec fails cN cw p1 n nw rank [] = runPlan fails p1 [] ∧ (runPlan fails p1 []).2 ≠ none) ∨
+    ((cN && cw) = false ∧ (∀ e ∈ p1, fails e = false) ∧ n = 0 ∧
+      growSpec fails cN cw p1 n nw rank [] = (p1, some .valueError)) ∨
+    ((cN && cw) = false ∧ (∀ e ∈ p1, fails e = false) ∧ n ≠ 0 ∧
+      growSpec fails cN cw p1 n nw rank [] = runPlan fails (plan2 n nw rank) p1) := by
   unfold growSpec
   by_cases hc : (cN && cw) = true
   · left; exact ⟨hc, by simp [hc]⟩
   · right
     have hc' : (cN && cw) = false := by simpa using hc
     rw [if_neg hc]
-    rcases runPlan_cases fails (plan1 fN) [] with ⟨h1, h2⟩ | ⟨pre, e, suf, h1, h2, h3, h4⟩
+    rcases runPlan_cases fails p1 [] with ⟨h1, h2⟩ | ⟨pre, e, suf, h1, h2, h3, h4⟩
     · right
       rw [h2, skBindG_ok]
       by_cases hn : n = 0
@@ -97,30 +124,31 @@ and every effect before it (reads, every evaluation) went through -/
 theorem c08_grow_write_last
     (h : GEff.writeResult ∈ (Gen.growSk fails cN cw fN n nw cm os orank ps prank []).1) :
     ∃ pre, (Gen.growSk fails cN cw fN n nw cm os orank ps prank []).1 = pre ++ [GEff.writeResult] ∧
-      GEff.writeResult ∉ pre ∧ (∀ e ∈ pre, fails e = false) ∧ pre = plan1 fN ++ evals n nw := by
-  rw [growSk_eq_spec] at h ⊢
-  rcases growSpec_shape fails cN cw fN n nw (rankOf cm os orank ps prank) with
+      GEff.writeResult ∉ pre ∧ (∀ e ∈ pre, fails e = false) ∧ ∃ p1, Plan1 fN p1 ∧ pre = p1 ++ evals n nw := by
+  obtain ⟨p1, hp1, heq⟩ := growSk_eq_spec fails cN cw fN n nw cm os orank ps prank []
+  rw [heq] at h ⊢
+  rcases growSpec_shape fails cN cw p1 n nw (rankOf cm os orank ps prank) with
     ⟨_, hG⟩ | ⟨_, _, hG, _⟩ | ⟨_, _, _, hG⟩ | ⟨_, h1, _, hG⟩
   · rw [hG] at h; simp at h
   · rw [hG] at h
     rcases runPlan_mem fails _ _ _ h with h | h
     · simp at h
-    · exact absurd h (w_not_plan1 fN)
-  · rw [hG] at h; exact absurd h (w_not_plan1 fN)
+    · exact absurd h (w_not_plan1 fN p1 hp1)
+  · rw [hG] at h; exact absurd h (w_not_plan1 fN p1 hp1)
   · rw [hG] at h ⊢
     unfold plan2 at h ⊢
     by_cases hr : rankOf cm os orank ps prank = 0
     · simp only [hr, if_true] at h ⊢
-      obtain ⟨l1, l2, _, _⟩ := runPlan_last fails (evals n nw) (plan1 fN) GEff.writeResult (w_not_evals n nw) (w_not_plan1 fN)
-      refine ⟨plan1 fN ++ evals n nw, l2 h, ?_, ?_, rfl⟩
-      · simp only [List.mem_append, not_or]; exact ⟨w_not_plan1 fN, w_not_evals n nw⟩
+      obtain ⟨l1, l2, _, _⟩ := runPlan_last fails (evals n nw) p1 GEff.writeResult (w_not_evals n nw) (w_not_plan1 fN p1 hp1)
+      refine ⟨p1 ++ evals n nw, l2 h, ?_, ?_, p1, hp1, rfl⟩
+      · simp only [List.mem_append, not_or]; exact ⟨w_not_plan1 fN p1 hp1, w_not_evals n nw⟩
       · intro e he
         rcases List.mem_append.mp he with he | he
         · exact h1 e he
         · exact (l1.mp h) e he
     · simp only [hr, if_false, List.append_nil] at h
       rcases runPlan_mem fails _ _ _ h with h | h
-      · exact absurd h (w_not_plan1 fN)
+      · exact absurd h (w_not_plan1 fN p1 hp1)
       · exact absurd h (w_not_evals n nw)
 
 /-- **when the write is attempted**: exactly when `grow` was started in / given a crop, the function file (if needed)
@@ -130,8 +158,9 @@ theorem c08_grow_writes_iff :
     GEff.writeResult ∈ (Gen.growSk fails cN cw fN n nw cm os orank ps prank []).1 ↔
       ((cN && cw) = false ∧ (∀ e ∈ plan1 fN, fails e = false) ∧ n ≠ 0 ∧ (∀ e ∈ evals n nw, fails e = false) ∧
         rankOf cm os orank ps prank = 0) := by
-  rw [growSk_eq_spec]
-  rcases growSpec_shape fails cN cw fN n nw (rankOf cm os orank ps prank) with
+  obtain ⟨p1, hp1, heq⟩ := growSk_eq_spec fails cN cw fN n nw cm os orank ps prank []
+  rw [heq, ← plan1_all fails fN p1 hp1]
+  rcases growSpec_shape fails cN cw p1 n nw (rankOf cm os orank ps prank) with
     ⟨hc, hG⟩ | ⟨_, hn, hG, _⟩ | ⟨_, _, hn, hG⟩ | ⟨hc, h1, hn, hG⟩
   · rw [hG]; simp [hc]
   · rw [hG]
@@ -139,24 +168,24 @@ theorem c08_grow_writes_iff :
     · intro h
       rcases runPlan_mem fails _ _ _ h with h | h
       · simp at h
-      · exact absurd h (w_not_plan1 fN)
+      · exact absurd h (w_not_plan1 fN p1 hp1)
     · intro h; exact absurd h.2.1 hn
   · rw [hG]
     constructor
-    · intro h; exact absurd h (w_not_plan1 fN)
+    · intro h; exact absurd h (w_not_plan1 fN p1 hp1)
     · intro h; exact absurd hn h.2.2.1
   · rw [hG]
     unfold plan2
     by_cases hr : rankOf cm os orank ps prank = 0
     · simp only [hr, if_true]
-      obtain ⟨l1, _, _, _⟩ := runPlan_last fails (evals n nw) (plan1 fN) GEff.writeResult (w_not_evals n nw) (w_not_plan1 fN)
+      obtain ⟨l1, _, _, _⟩ := runPlan_last fails (evals n nw) p1 GEff.writeResult (w_not_evals n nw) (w_not_plan1 fN p1 hp1)
       rw [l1]
       exact ⟨fun h => ⟨hc, h1, hn, h, trivial⟩, fun h => h.2.2.2.1⟩
     · simp only [hr, if_false, List.append_nil]
       constructor
       · intro h
         rcases runPlan_mem fails _ _ _ h with h | h
-        · exact absurd h (w_not_plan1 fN)
+        · exact absurd h (w_not_plan1 fN p1 hp1)
         · exact absurd h (w_not_evals n nw)
       · intro h; exact absurd h.2.2.2.2 (by simpa using hr)
 
@@ -168,8 +197,10 @@ theorem c08_grow_error_no_write
   by_cases hw : GEff.writeResult ∈ (Gen.growSk fails cN cw fN n nw cm os orank ps prank []).1
   · right
     have hiff := (c08_grow_writes_iff fails cN cw fN n nw cm os orank ps prank).mp hw
-    rw [growSk_eq_spec] at h hw
-    rcases growSpec_shape fails cN cw fN n nw (rankOf cm os orank ps prank) with
+    obtain ⟨p1, hp1, heq⟩ := growSk_eq_spec fails cN cw fN n nw cm os orank ps prank []
+    rw [← plan1_all fails fN p1 hp1] at hiff
+    rw [heq] at h hw
+    rcases growSpec_shape fails cN cw p1 n nw (rankOf cm os orank ps prank) with
       ⟨hc, _⟩ | ⟨_, hn, _, _⟩ | ⟨_, _, hn, _⟩ | ⟨_, _, _, hG⟩
     · simp [hiff.1] at hc
     · exact absurd hiff.2.1 hn
@@ -177,7 +208,7 @@ theorem c08_grow_error_no_write
     · rw [hG] at h hw
       unfold plan2 at h hw
       simp only [hiff.2.2.2.2, if_true] at h hw
-      exact (runPlan_last fails (evals n nw) (plan1 fN) GEff.writeResult (w_not_evals n nw) (w_not_plan1 fN)).2.2.2 h hw
+      exact (runPlan_last fails (evals n nw) p1 GEff.writeResult (w_not_evals n nw) (w_not_plan1 fN p1 hp1)).2.2.2 h hw
   · exact Or.inl hw
 
 /-- **C08 on the translated `grow`: a batch counts as finished iff a grow of it completed successfully.**  For the
@@ -187,8 +218,9 @@ theorem c08_finished_iff_grow_completed (hr : rankOf cm os orank ps prank = 0) :
     (Gen.growSk fails cN cw fN n nw cm os orank ps prank []).2 = none ↔
       (GEff.writeResult ∈ (Gen.growSk fails cN cw fN n nw cm os orank ps prank []).1 ∧ fails GEff.writeResult = false) := by
   rw [c08_grow_writes_iff]
-  rw [growSk_eq_spec]
-  rcases growSpec_shape fails cN cw fN n nw (rankOf cm os orank ps prank) with
+  obtain ⟨p1, hp1, heq⟩ := growSk_eq_spec fails cN cw fN n nw cm os orank ps prank []
+  rw [heq, ← plan1_all fails fN p1 hp1]
+  rcases growSpec_shape fails cN cw p1 n nw (rankOf cm os orank ps prank) with
     ⟨hc, hG⟩ | ⟨_, hn, hG, he⟩ | ⟨_, _, hn, hG⟩ | ⟨hc, h1, hn, hG⟩
   · rw [hG]; simp [hc]
   · rw [hG]
@@ -198,7 +230,7 @@ theorem c08_finished_iff_grow_completed (hr : rankOf cm os orank ps prank = 0) :
   · rw [hG]
     unfold plan2
     simp only [hr, if_true]
-    rw [(runPlan_last fails (evals n nw) (plan1 fN) GEff.writeResult (w_not_evals n nw) (w_not_plan1 fN)).2.2.1]
+    rw [(runPlan_last fails (evals n nw) p1 GEff.writeResult (w_not_evals n nw) (w_not_plan1 fN p1 hp1)).2.2.1]
     exact ⟨fun h => ⟨⟨hc, h1, hn, h.1, trivial⟩, h.2⟩, fun h => ⟨h.1.2.2.2.1, h.2⟩⟩
 
 /-- **exactly one write per successful grow**, never more than one, never to another file; a process that is not
@@ -219,20 +251,21 @@ theorem c08_grow_one_write :
   · by_cases hw : GEff.writeResult ∈ (Gen.growSk fails cN cw fN n nw cm os orank ps prank []).1
     · rw [hcount hw]; exact Nat.le_refl 1
     · rw [List.count_eq_zero_of_not_mem hw]; exact Nat.zero_le 1
-  · rw [growSk_eq_spec]
-    rcases growSpec_shape fails cN cw fN n nw (rankOf cm os orank ps prank) with
+  · obtain ⟨p1, hp1, heq⟩ := growSk_eq_spec fails cN cw fN n nw cm os orank ps prank []
+    rw [heq]
+    rcases growSpec_shape fails cN cw p1 n nw (rankOf cm os orank ps prank) with
       ⟨_, hG⟩ | ⟨_, _, hG, _⟩ | ⟨_, _, _, hG⟩ | ⟨_, _, _, hG⟩
     · rw [hG]; simp
     · rw [hG]
       intro h
       rcases runPlan_mem fails _ _ _ h with h | h
       · simp at h
-      · exact absurd h (wo_not_plan1 fN)
-    · rw [hG]; exact wo_not_plan1 fN
+      · exact absurd h (wo_not_plan1 fN p1 hp1)
+    · rw [hG]; exact wo_not_plan1 fN p1 hp1
     · rw [hG]
       intro h
       rcases runPlan_mem fails _ _ _ h with h | h
-      · exact absurd h (wo_not_plan1 fN)
+      · exact absurd h (wo_not_plan1 fN p1 hp1)
       · exact absurd h (wo_not_plan2 n nw _)
   · intro hok hr
     exact hcount ((c08_finished_iff_grow_completed fails cN cw fN n nw cm os orank ps prank hr).mp hok).1
@@ -312,8 +345,11 @@ theorem growOne_refines {β : Type} (f : List Nat → β) (fl : List Nat → Boo
 
 /-! Non-vacuity: a sequential grow of three cases in which everything goes through; one in which case 1 raises; a
 pool grow; a rank-1 MPI process -/
-example : Gen.growSk (fun _ => false) false false true 3 none true false 0 false 0 [] =
-    ([.readFn, .readBatch, .eval 0, .eval 1, .eval 2, .writeResult], none) := by
+example : Gen.growSk (fun _ => false) false false false 3 none true false 0 false 0 [] =
+    ([.readBatch, .eval 0, .eval 1, .eval 2, .writeResult], none) := by
+  simp [Gen.growSk, Gen.Default.growSk, skLoop, skLoopB]
+example : GEff.readFn ∈ (Gen.growSk (fun _ => false) false false true 1 none true false 0 false 0 []).1 ∧
+    (Gen.growSk (fun e => e == .readFn) false false true 1 none true false 0 false 0 []).2 = some .other := by
   simp [Gen.growSk, Gen.Default.growSk, skLoop, skLoopB]
 example : Gen.growSk (fun e => e == .eval 1) false false false 3 none true false 0 false 0 [] =
     ([.readBatch, .eval 0, .eval 1], some .other) := by
